@@ -1,10 +1,14 @@
 """C04 — negation and aggregation see the complete relation, each tuple once."""
 from . import core, eng, gen, engcheck
 
-THEOREMS = ["agg_view_each_once", "run_agg_eq_model", "agg_sees_final", "run_agg_rows_set", "run_agg_from_eq_model", "agg_view_each_once_from", "run_agg_eq_model_from", "second_run_agg_view_each_once", "second_run_view_witness"]
+THEOREMS = ["agg_view_each_once", "run_agg_eq_model", "agg_sees_final", "run_agg_rows_set", "run_agg_from_eq_model", "agg_view_each_once_from", "run_agg_eq_model_from", "second_run_agg_view_each_once", "second_run_view_witness", "runPhys_agg_eq_model", "runND_agg_spec", "run_is_RunND_agg", "neg_hyps"]
 TRUSTED = ["Lean 4.33.0 kernel", "axioms: propext, Classical.choice, Quot.sound only (audited per theorem)",
            "statement: Props/C04.lean", "model Model/Engine.lean (aggTuples: the aggregated relation's stored index entries, full index = distinct tuples, "
            "Vec index = one entry per insertion) tied by compiled stratified programs with count/sum/min/max/not at stratum depth 1-3",
+           "Props/C04Phys.lean (Model/EnginePhys.lean, Proofs/NDAgg*.lean, Proofs/PhysAgg*.lean): the generated code over its PHYSICAL indices with aggregation / negation items (index_get with the "
+           "evaluated key arguments on the index the plan chose for the aggregated relation, stored version) computes the stratified model, every aggregation over the final rows, each tuple once "
+           "(runPhys_agg_eq_model); every execution of the nondeterministic engine does (runND_agg_spec); hypotheses planOk, aggPlanOk (decidable), Desugared, WellScoped, Stratified, permutation-invariant "
+           "aggregators; tied by `eng runp` on every fourth input of this check",
            "duplicate-free row vectors of the start value are a hypothesis of the each-once theorems (finding F15 otherwise); since fix 8b2e261 they hold from any program value (F2, F3 closed)"]
 
 
@@ -35,7 +39,11 @@ def build(rng, tier):
                     inp[rel] = list(inp.get(rel, [])) + extra
                 kind = "agg-inputs-contain-derivable"
             inst = f"{pid}_{j}"
-            cases.append(engcheck.Case(pid, inst, engcheck.std_history(inst, pid, inp), {"inp": inp, "kind": kind}))
+            hist = engcheck.std_history(inst, pid, inp)
+            # every fourth input: the Lean side is the physical-index engine model (`eng runp`, Model/EnginePhys.lean: the aggregation reads the rows through
+            # `index_get` on the index the plan chose for it); the real code is the same run()
+            if j % 4 == 0: hist = [o.replace("eng run ", "eng runp ") for o in hist]
+            cases.append(engcheck.Case(pid, inst, hist, {"inp": inp, "kind": kind + ("/phys" if j % 4 == 0 else "")}))
             if j % 4 == 3:
                 # known-finding class: duplicate rows in the input (F15); a second run() (F2, fixed by 8b2e261) must pass
                 r2 = rng.fork(f"{pid}d{j}")
@@ -78,7 +86,7 @@ def known(c, p, impl, model):
 
 
 def check(tier, replay=None):
-    return engcheck.run_property("C04", tier, modules=["AscentVerif.Props.C04"], theorems=THEOREMS, trusted=TRUSTED, group="c04",
+    return engcheck.run_property("C04", tier, modules=["AscentVerif.Props.C04", "AscentVerif.Props.C04Phys", "AscentVerif.Proofs.NDAgg", "AscentVerif.Proofs.PhysAggRun"], theorems=THEOREMS, trusted=TRUSTED, group="c04",
                                  build=build, oracle=oracle, known=known, what="compiled stratified programs with aggregation / negation",
                                  rule="generated relational cores plus aggregation rules (count, sum, min, max, not) at stratum depth 1-3, aggregated relation's "
                                       "columns bound by key variables / constants, wildcarded or aggregated in every mix; aggregation as the FIRST body item followed by two joined clauses the second of which "
